@@ -517,3 +517,99 @@ func VerifH_C01_forin_mutation() {
 	}
 	verifAssert(v.String() == want, "12.6.4: a property deleted before it is reached is not visited; the others exactly once")
 }
+
+// Scope-chain details: labelled for-in with nested loops, the with object
+// leaving the scope chain when its body throws, `var` initialisers inside with
+// and catch, the Function constructor's global scope, eval-declared variables
+// inside catch / with, constructors whose prototype property is not an object,
+// and a function that deletes from its arguments object being called again
+// (also through a Script compiled on another runtime).
+func VerifH_C01_scopes() {
+	vm := New()
+	var r verifRec
+	r.install(vm)
+	x, y := verifNondetFloat64(), verifNondetFloat64()
+	verifAssume(x == x && y == y) // the templates above cover NaN operands; here the bindings are the subject
+	a, b := verifChoose(3), verifChoose(3)
+	pk := verifChoose(5)
+	vm.Set("x", x)
+	vm.Set("y", y)
+	vm.Set("a", a)
+	vm.Set("b", b)
+	verifSetKind(vm, "P", pk, 1) // undefined, null, boolean, number, string: not an object
+	src := "" +
+		// labelled for-in, nested loop with continue L / break L
+		"var keys = {p0: 0, p1: 1, p2: 2}; L: for (var k in keys) { for (var j = 0; j < 3; j++) { if (j == a) continue L; if (keys[k] == b) break L; rec(keys[k] * 10 + j) } rec(90 + keys[k]) }" +
+		// with object leaves the scope chain when the body throws
+		"var sv = x; try { with ({sv: y}) { rec(sv); throw 1 } } catch (e1) { rec(sv) } rec(sv);" +
+		"function fw() { var lv = x; try { with ({lv: y}) { throw 2 } } catch (e1) { rec(lv) } finally { rec(lv) } return lv } rec(fw());" +
+		// var with initialiser inside with / catch assigns where the name resolves
+		"function fv(o) { with (o) { var q = y } return [q, o.q] } var rv = fv({q: x}); rec(rv[0]); rec(rv[1]);" +
+		"function fc() { try { throw x } catch (ce) { var ce = y; rec(ce) } return ce } rec(fc());" +
+		// Function constructor: global scope only
+		"var gx = x; function ff() { var gx = y; return [new Function('return gx')(), Function('return typeof lv2')()] } var lv2r = ff(); rec(lv2r[0]); rec(lv2r[1]);" +
+		// eval-declared vars inside catch / with go to the function's variable environment
+		"function fe() { try { throw 1 } catch (e3) { eval('var ye = y') } return ye } rec(fe());" +
+		"function fe2(o) { with (o) { eval('var ze = x') } return [ze, 'ze' in o] } var re2 = fe2({}); rec(re2[0]); rec(re2[1]);" +
+		// constructor whose prototype property is not an object
+		"function G() { this.v = x } G.prototype = P; var g = new G(); rec(Object.getPrototypeOf(g) === Object.prototype); rec(g instanceof Object); rec(typeof g.hasOwnProperty); rec(g.v);" +
+		// delete from arguments, then call again
+		"function fd(p, q) { delete arguments[0]; p = y; return [p, arguments[0], arguments.length] } var d1 = fd(x, 1), d2 = fd(x, 2); rec(d1[0]); rec(d1[1]); rec(d2[0]); rec(d2[1]); rec(d2[2]);" +
+		"function fr(p, q) { delete arguments[0]; return p + q } rec(fr(x, 1)); rec(fr(x, 2)); d2.length"
+	route := []int{0, 1, 4}[verifChoose(3)] // source text, compiled Script, Script first run on another runtime
+	v, err := verifSubmit(vm, src, route)
+	verifCover("reached")
+	var want []Value
+	// labelled for-in
+forin:
+	for kv := 0; kv < 3; kv++ {
+		for j := 0; j < 3; j++ {
+			if j == a {
+				continue forin
+			}
+			if kv == b {
+				break forin
+			}
+			want = append(want, numV(float64(kv*10+j)))
+		}
+		want = append(want, numV(float64(90+kv)))
+	}
+	want = append(want, numV(y), numV(x), numV(x)) // with + throw at top level
+	want = append(want, numV(x), numV(x), numV(x)) // inside a function: catch, finally, return
+	want = append(want, Value{}, numV(y))          // var q = y inside with(o) where o has q
+	want = append(want, numV(y), Value{})          // catch (ce) { var ce = y }: the parameter is assigned, the hoisted var stays undefined
+	want = append(want, numV(x), toValue("undefined"))
+	want = append(want, numV(y))
+	want = append(want, numV(x), toValue(false))
+	want = append(want, toValue(true), toValue(true), toValue("function"), numV(x))
+	want = append(want, numV(y), Value{}, numV(y), Value{}, numV(2))
+	want = append(want, numV(x+1), numV(x+2))
+	verifAssert(err == nil, "the program completes normally")
+	verifAssert(r.same(want), "10.2-10.6, 12.6.4, 12.10, 12.14, 13.2.2, 15.3.2.1: scope chain and binding details")
+	verifAssert(verifSameJS(v, numV(3)), "completion value")
+	if route == 4 || route == 1 {
+		// the same compiled program again on a fresh runtime: nothing of the first run may stick to it
+		s, cerr := vm.Compile("", src)
+		if cerr == nil {
+			first := New()
+			var r1 verifRec
+			r1.install(first)
+			first.Set("x", x)
+			first.Set("y", y)
+			first.Set("a", a)
+			first.Set("b", b)
+			verifSetKind(first, "P", pk, 1)
+			first.Run(s)
+			second := New()
+			var r2 verifRec
+			r2.install(second)
+			second.Set("x", x)
+			second.Set("y", y)
+			second.Set("a", a)
+			second.Set("b", b)
+			verifSetKind(second, "P", pk, 1)
+			_, e2 := second.Run(s)
+			verifAssert(e2 == nil && r2.same(want), "a Script reused on another runtime behaves as on the first (execution does not modify it)")
+		}
+	}
+}
